@@ -372,11 +372,26 @@ def r15_13_no_coarser_type_on_the_way(ctx: Ctx) -> RuleResult:
                     # 1970 needs the floor: 1 ns before the epoch is 1969-12-31T23:59:59.999999, not 1970-01-01T00:00:00
                     bad = n
                     table = dict(table, **{unparse(n.func): "Duration.to_timedelta truncates towards zero; a point in time before the epoch must be floored (days and microseconds from the floor view)"})
+                if isinstance(n, ast.Call) and isinstance(n.func, ast.Attribute) and n.func.attr in STDLIB_RANGE_LIMITED:
+                    # the stdlib's own normalisations stay inside datetime.min .. datetime.max (astimezone raises OverflowError for an
+                    # aware datetime within its offset of either end although the UTC value is a valid Instant) or go through floats
+                    bad = n
+                    table = dict(table, **{unparse(n.func): STDLIB_RANGE_LIMITED[n.func.attr]})
             if bad is None:
                 rr.ok({"bridge": f.qual})
             else:
                 rr.fail(f.qual, f"`{unparse(bad)[:80]}`: {table[unparse(bad.func)]}", ctx.loc(f, bad))
     return rr
+
+
+STDLIB_RANGE_LIMITED = {
+    "astimezone": "datetime.astimezone is limited to datetime.min .. datetime.max: an aware datetime within its UTC offset of either end raises OverflowError although its UTC value is representable; subtract the offset in integer ticks",
+    "timestamp": "datetime.timestamp() is a float (53 bits): microseconds are lost far from the epoch",
+    "fromtimestamp": "datetime.fromtimestamp goes through a float / the platform's time_t range",
+    "utcfromtimestamp": "datetime.utcfromtimestamp goes through a float / the platform's time_t range",
+    "utctimetuple": "utctimetuple drops the sub-second part",
+    "timetuple": "timetuple drops the sub-second part",
+}
 
 
 # ------------------------------------------------------------------------------------------- R15.14 / R15.15
